@@ -361,6 +361,10 @@ def reply (env : Env) (fuel : Nat) (op : Op) (unwrap : Option Key) (body : List 
 
 /-! ### the object builder -/
 
+/-- `Builder.add_attributes`: `_name` = the declared default. -/
+def attrField (a : AttrDecl) : String × Py :=
+  ("_" ++ a.name, match a.dflt with | some d => .text d a.type | none => .none)
+
 /-- `Builder.process(data, member, history)`: the attributes it sets on `data`. `history` holds
 the members on the path (by declaring namespace, name and type). -/
 def skeletonMember (env : Env) : Nat → List (Member × Nat) → (Member × Nat) → List (String × Py)
@@ -376,8 +380,7 @@ def skeletonMember (env : Env) : Nat → List (Member × Nat) → (Member × Nat
       let fl := env.types.length + 1
       let ms := members env fl k
       let as := attrsOf env fl k
-      let adata : List (String × Py) := as.map fun a =>
-        ("_" ++ a.name, match a.dflt with | some d => .text d a.type | none => .none)
+      let adata : List (String × Py) := as.map attrField
       if ms.isEmpty && as.isEmpty then [(m.name, .none)] else
       let kids := (ms.filter (fun x => !x.1.inChoice)).flatMap fun x => skeletonMember env f (md :: hist) x
       [(m.name, if m.min == 0 then .none else .obj k.2 (adata ++ kids))]
@@ -385,8 +388,7 @@ def skeletonMember (env : Env) : Nat → List (Member × Nat) → (Member × Nat
 /-- `Builder.build(type)` -/
 def skeleton (env : Env) (fuel : Nat) (k : Key) : Py :=
   let fl := env.types.length + 1
-  let adata : List (String × Py) := (attrsOf env fl k).map fun a =>
-    ("_" ++ a.name, match a.dflt with | some d => .text d a.type | none => .none)
+  let adata : List (String × Py) := (attrsOf env fl k).map attrField
   .obj k.2 (adata ++ ((members env fl k).filter (fun x => !x.1.inChoice)).flatMap fun x => skeletonMember env fuel [] x)
 
 end Suds.Schema
